@@ -7,6 +7,8 @@ import (
 	"time"
 
 	"github.com/formancehq/numscript/internal/interpreter"
+	"github.com/formancehq/numscript/internal/verifmc/env"
+	"github.com/formancehq/numscript/internal/verifmc/gen"
 	"github.com/formancehq/numscript/internal/verifmc/mc"
 	"github.com/formancehq/numscript/internal/verifmc/ref"
 )
@@ -203,6 +205,42 @@ func runC07(w *mc.Worker) {
 			Modes: []string{"fixed", "all"}, Accts: []string{"a", "b"}, BalDom: bal, AmtDom: amt, Asset: "USD"}
 		runSendSpace(w, &sp2, owns, nontriv)
 	}
+	// account names that collide when a source and a destination are joined with ':' ((u:1, f) and (u, 1:f))
+	w.Stage("colon-names", "send $amt from {@u:1 @u} / {@u @u:1} to {max c to @f, remaining to @1:f} / {max c to @1:f, remaining to @f} / {1/2 to @f, 1/2 to @1:f}; c in {1,2,3}; balances {1,2,3}^2; amounts 1..6", func() {
+		w.Outer("colon-names/shape", 0, func(o *mc.Explorer) {
+			s1, s2 := "u:1", "u"
+			if o.Choose(2) == 1 {
+				s1, s2 = s2, s1
+			}
+			d1, d2 := "f", "1:f"
+			if o.Choose(2) == 1 {
+				d1, d2 = d2, d1
+			}
+			var dst gen.Dest
+			if k := o.Choose(4); k < 3 {
+				dst = &gen.DstInorder{Clauses: []*gen.DstClause{{Cap: gen.Mon("USD", []string{"1", "2", "3"}[k]), To: &gen.To{D: da(d1)}}}, Remaining: &gen.To{D: da(d2)}}
+			} else {
+				dst = &gen.DstAllot{Items: []*gen.DstAllotItem{{A: gen.Port("1/2"), To: &gen.To{D: da(d1)}}, {A: gen.Port("1/2"), To: &gen.To{D: da(d2)}}}}
+			}
+			prog := &gen.Program{Stmts: []gen.Stmt{&gen.Send{Sent: &gen.SentLit{E: gen.V("amt")}, Src: lst(sa(s1), sa(s2)), Dst: dst}}}
+			declareUsed(prog)
+			text := gen.Text(prog)
+			if !w.Mine(text) {
+				return
+			}
+			w.Owned()
+			pr, ok := mustParse(w, text)
+			if !ok {
+				return
+			}
+			bals := bigs(1, 2, 3)
+			w.Inner(0, func(in *mc.Explorer) {
+				bal := env.Bal{"u:1": {"USD": bals[in.Choose(3)]}, "u": {"USD": bals[in.Choose(3)]}}
+				vars := map[string]string{"amt": fmt.Sprint("USD ", 1+in.Choose(6))}
+				judgeOne(w, prog, text, pr, vars, bal, nil, owns, nontriv)
+			})
+		})
+	})
 	{
 		// amounts around the machine-word boundaries: a sender of 2^63+k against a share of 2, and so on
 		spP := sendSpace{Name: "pow2-w1", Bounds: "the same sources and destinations with joint weight <= 1 (depth 1); balances in {1,2^63,2^64-1,2^64+1}^2; amounts in {0,1,2^63-1,2^63,2^64-1,2^64,2^64+1,2^65}", Budget: 1, SrcDepth: 1, DstDepth: 1, Src: src, Dst: dst,
